@@ -323,12 +323,24 @@ func selfTest(prop, root, repo string, rep *thoroughReport) {
 func replayFindings(prop, root string, known []KnownFinding, rep *thoroughReport) {
 	rep.FindingsReplayed = map[string]string{}
 	for _, k := range known {
-		if k.Property != prop || k.Status != "open" {
+		if k.Property != prop || (k.Status != "open" && k.Status != "fixed") {
 			continue
 		}
 		script := filepath.Join(root, "scripts", "run_finding.sh")
 		c := exec.Command(script, k.ID)
 		out, err := c.CombinedOutput()
+		if k.Status == "fixed" {
+			// the witness of a repaired defect must not reproduce (its obligation is checked like any other)
+			switch {
+			case strings.Contains(string(out), "VIOLATION-CONFIRMED"):
+				rep.FindingsReplayed[k.ID] = "REGRESSION: the witness of this repaired defect reproduces again"
+			case err == nil:
+				rep.FindingsReplayed[k.ID] = "repaired: the witness no longer reproduces"
+			default:
+				rep.FindingsReplayed[k.ID] = "replay did not run: " + firstLines(string(out), 2)
+			}
+			continue
+		}
 		switch {
 		case strings.Contains(string(out), "VIOLATION-CONFIRMED"):
 			rep.FindingsReplayed[k.ID] = "reproduces on the real code"
